@@ -220,4 +220,61 @@ pub fn generate(w: &mut dyn Write, seed: u64, thorough: bool) {
         }
         crate::emit_case(w, &["vmr".into(), hex(&y)], exec);
     }
+
+    // ---- dimension audit (seeded/audit/aud-misc.md), SOCKS5-style part ----
+    // (a) host byte classes the quick tier leaves to `thorough` (NUL bytes, dots only, printable incl. ':' '/' '@' ' ',
+    //     bytes >= 0x80 that are not UTF-8, uniformly random bytes) at the boundary lengths of the one-byte length field and
+    //     of a 16-bit length; (b) try_decode_at at, just before and beyond the end of the buffer; (c) a name whose declared
+    //     length is one more / one less than what is there
+    let mut rng = Rng::new(seed ^ 0x6164_6472_6175_6431);
+    let mut lens: Vec<usize> = vec![0, 1, 2, 63, 64, 127, 128, 253, 254, 255, 256, 257, 300, 511, 512, 513];
+    if thorough {
+        lens.extend_from_slice(&[65535, 65536, 65537]);
+    } else {
+        lens.push(65536);
+    }
+    for &l in &lens {
+        let classes: &[u64] = if l > 1024 { &[0] } else { &[2, 3, 4, 5, 6] };
+        for &c in classes {
+            let h: Vec<u8> = match c {
+                5 => (0..l).map(|i| [0xffu8, 0xc3, 0x80, 0xe4, 0xb8][i % 5]).collect(),
+                6 => rng.bytes(l),
+                _ => host_of(&mut rng, l, c),
+            };
+            let a = format!("D:{}:{}", hex(&h), rng.pick(&ports));
+            crate::emit_case(w, &["s5enc".into(), a.clone()], exec);
+            if l <= 255 {
+                // the wire as the layout defines it (not through the encoder), then a tail
+                let mut wire = vec![3u8, l as u8];
+                wire.extend_from_slice(&h);
+                wire.extend_from_slice(&rng.pick(&ports).to_be_bytes());
+                let n = wire.len();
+                let tail = rng.bytes_of(&[0usize, 1, 7]);
+                let full = [&wire[..], &tail[..]].concat();
+                crate::emit_case(w, &["s5dec".into(), hex(&full)], exec);
+                for at in [0usize, 1, 2, n - 1, n, n + 1, n + tail.len(), n + tail.len() + 1, n + 1000] {
+                    crate::emit_case(w, &["s5try".into(), hex(&full), at.to_string()], exec);
+                }
+                let pre = rng.bytes_of(&[1usize, 3, 59]);
+                let shifted = [&pre[..], &wire[..]].concat();
+                for at in [pre.len() - 1, pre.len(), pre.len() + 1, shifted.len() - 1, shifted.len()] {
+                    crate::emit_case(w, &["s5try".into(), hex(&shifted), at.to_string()], exec);
+                }
+                for cut in [1usize, 2, 3, n.saturating_sub(3), n - 2, n - 1] {
+                    if cut < n {
+                        crate::emit_case(w, &["s5dec".into(), hex(&wire[..cut])], exec);
+                    }
+                }
+                // declared length one more / one less than the name that follows
+                for d in [l.wrapping_sub(1), l + 1] {
+                    if d <= 255 {
+                        let mut m = wire.clone();
+                        m[1] = d as u8;
+                        crate::emit_case(w, &["s5dec".into(), hex(&m)], exec);
+                        crate::emit_case(w, &["s5try".into(), hex(&m), "0".into()], exec);
+                    }
+                }
+            }
+        }
+    }
 }
